@@ -13,7 +13,8 @@ RULE = ('decks (flat and with universes) extended by 1–3 LIKE n BUT cells over
         'parameter, keyword case variants; each deck is converted twice — as written and with every LIKE card expanded '
         'by the generator — and the two outputs must be identical except for the header; the Lean point monitor '
         'also checks the LIKE deck against the expanded abstract deck. Non-trivial = every deck (it has a LIKE card).')
-NOT_PROVED = []
+NOT_PROVED = ['the array form of FILL (ranges + universe list) is outside the keyword model: covered by the LIKE decks '
+              'of the `like` stream only']
 ASSUMPTIONS = []
 
 
